@@ -268,7 +268,7 @@ def run_with(N, names, refine=False):
             _, cfg["env"], cfg["box"] = nm.split(":")
     pre = [int(v) for nm in names if nm.startswith("pre:") for v in nm[4:].split(",")]   # "pre:4,5": batches before Solve
     names_all = list(names)
-    names = [nm for nm in names if not nm.startswith(("env:", "pre:")) and nm != "swapout"]
+    names = [nm for nm in names if not nm.startswith(("env:", "pre:")) and nm not in ("swapout", "refine0")]
     lo, up = box(cfg["box"], N)
     f = make_env(cfg["env"], cfg)
     p = EnvProblem(N, lo, up, f)
@@ -293,6 +293,13 @@ def run_with(N, names, refine=False):
                 else:
                     s.AddListener(specs[nm][1](d))
             try:
+                if "refine0" in names_all:
+                    # a refinement requested before any global iteration (this version refuses it): whatever it does,
+                    # the listeners are afterwards served as on a new solver
+                    try:
+                        s.DoLocalRefinement(3)
+                    except Exception:
+                        pass
                 for b_ in pre:
                     s.DoGlobalIteration(b_)
                 if "swapout" in names_all:
@@ -319,7 +326,8 @@ def run_with(N, names, refine=False):
     out = dict(error=None, items=items[1:-1], best=(tuple(np.asarray(b.point.floatVariables).tolist()),
                                                      b.functionValues[0].value),
                nglobal=sol.numberOfGlobalTrials, nlocal=sol.numberOfLocalTrials, acc=sol.solutionAccuracy,
-               printed=buf.getvalue(), probes=len(p.log) - sol.numberOfGlobalTrials)
+               printed=buf.getvalue(), probes=len(p.log) - sol.numberOfGlobalTrials,
+               told=[e[1] for e in events if e[0] == "OnEndIteration"], order=[e[0] for e in events])
     return out
 
 
@@ -356,7 +364,7 @@ def console_report_ok(res):
 
 def shipped_case(task):
     N, names, refine = task["N"], task["names"], bool(task.get("refine"))
-    ref = run_with(N, [n for n in names if n.startswith(("env:", "pre:")) or n == "swapout"], refine)
+    ref = run_with(N, [n for n in names if n.startswith(("env:", "pre:")) or n in ("swapout", "refine0")], refine)
     got = run_with(N, names, refine)
     ctx = f"N={N} listeners {names}" + (" refineSolution=True" if refine else "")
     if ref.get("error"):
@@ -372,6 +380,17 @@ def shipped_case(task):
             msgs.append(f"{ctx}: Solution.{k} = {got[k]!r}, listener-free run gives {ref[k]!r}")
     if any(n.startswith("console") for n in names):
         msgs += [f"{ctx}: {m}" for m in console_report_ok(got)]
+    if "rec" in names and not refine:
+        # the recording listener, wherever it stands among the others: told about every search trial exactly once, in the
+        # order the trials were made, after one BeforeMethodStart and before one OnMethodStop
+        told = [t for batch in got["told"] for t in batch]
+        if sorted(told) != sorted(got["items"]):
+            msgs.append(f"{ctx}: the recording listener was told about {len(told)} trials, the search made {len(got['items'])}")
+        order = got["order"]
+        if not order or order[0] != "BeforeMethodStart" or order.count("BeforeMethodStart") != 1 \
+                or order[-1] != "OnMethodStop" or order.count("OnMethodStop") != 1:
+            msgs.append(f"{ctx}: the recording listener saw {order[:2]} ... {order[-2:]} "
+                        f"({order.count('BeforeMethodStart')} BeforeMethodStart, {order.count('OnMethodStop')} OnMethodStop)")
     return msgs
 
 
@@ -421,6 +440,13 @@ def run(ctx):
         for mode in ("full", "custom", "result"):
             for pre in ("pre:4,5", "pre:7", "pre:2,2,2,6"):
                 stasks.append(dict(N=N, names=[f"console-{mode}-N{N}", pre]))
+        # the recording listener added AFTER a console listener (and before it), the first iterations in batches; a refinement
+        # requested before any iteration
+        for mode in ("full", "custom", "result"):
+            stasks.append(dict(N=N, names=[f"console-{mode}-N{N}", "rec", "pre:4,5"]))
+            stasks.append(dict(N=N, names=["rec", f"console-{mode}-N{N}", "pre:3,1,2"]))
+        stasks.append(dict(N=N, names=["rec", "refine0", "pre:2,3"]))
+        stasks.append(dict(N=N, names=[f"console-full-N{N}", "rec", "refine0"]))
         # a read-only listener that walks the search information partly; the output stream replaced before Solve
         stasks.append(dict(N=N, names=["peek", "pre:3,2"]))
         stasks.append(dict(N=N, names=["peek", f"console-full-N{N}"]))
